@@ -1,5 +1,5 @@
 (* Proofs about Model/IntText.v: format_radix produces, for every radix 2..36, a digit string whose value is
-   the number (fuel 64 always suffices), and from_str_radix reads it back, range checks included. *)
+   the number (fuel 64 always suffices, i64::MIN included), and from_str_radix reads it back, range checks included. *)
 From Coq Require Import List NArith ZArith Bool Lia.
 From VRL Require Import Base.Bytes Base.Value Model.ConvRes Model.IntText.
 Import ListNotations.
@@ -153,77 +153,75 @@ Qed.
 (* ---------- the pair ---------- *)
 
 Theorem format_radix_roundtrip radix z :
-  2 <= radix <= 36 -> in_i64 z = true -> z <> i64_min ->
+  2 <= radix <= 36 -> in_i64 z = true ->
   exists s, format_radix z radix = ROk s /\ from_str_radix s radix = Some z.
 Proof.
-  intros Hr Hz Hmin. unfold in_i64, i64_min, i64_max in *.
+  intros Hr Hz. unfold in_i64, i64_min, i64_max in *.
   apply andb_true_iff in Hz. destruct Hz as [Hlo Hhi]. apply Z.leb_le in Hlo. apply Z.leb_le in Hhi.
   pose proof (pow64_bound radix ltac:(lia)) as Hp.
-  unfold format_radix. destruct (z <? 0) eqn:Neg.
-  - apply Z.ltb_lt in Neg. replace (z =? i64_min) with false by (symmetry; apply Z.eqb_neq; exact Hmin).
-    destruct (digits_spec radix Hr 64%nat (- z) []) as (s & P & Hs & Hne & Hv); [lia|lia|].
-    rewrite app_nil_r in Hs. rewrite Hs. eexists; split; [reflexivity|].
-    replace (Some z) with (Some (- - z)) by (f_equal; lia).
+  unfold format_radix. cbv zeta.
+  destruct (digits_spec radix Hr 64%nat (Z.abs z) []) as (s & P & Hs & Hne & Hv); [lia|lia|].
+  rewrite app_nil_r in Hs. rewrite Hs.
+  destruct (z <? 0) eqn:Neg.
+  - apply Z.ltb_lt in Neg. eexists; split; [reflexivity|].
+    replace (Some z) with (Some (- Z.abs z)) by (f_equal; lia).
     apply from_str_radix_neg_digits; [lia | exact Hne | rewrite Hv; f_equal; lia | unfold i64_min; lia].
-  - apply Z.ltb_ge in Neg.
-    destruct (digits_spec radix Hr 64%nat z []) as (s & P & Hs & Hne & Hv); [lia|lia|].
-    rewrite app_nil_r in Hs. rewrite Hs. eexists; split; [reflexivity|].
+  - apply Z.ltb_ge in Neg. eexists; split; [reflexivity|].
+    replace (Some z) with (Some (Z.abs z)) by (f_equal; lia).
     apply from_str_radix_digits; [lia | exact Hne | rewrite Hv; f_equal; lia | unfold i64_max; lia].
 Qed.
 
 Theorem int_roundtrip base z :
-  2 <= base <= 36 -> in_i64 z = true -> z <> i64_min ->
+  2 <= base <= 36 -> in_i64 z = true ->
   exists s, format_int (VInt z) (VInt base) = ROk (VBytes s)
             /\ parse_int (VBytes s) (Some (VInt base)) = ROk (VInt z).
 Proof.
-  intros Hb Hz Hmin. destruct (format_radix_roundtrip base z Hb Hz Hmin) as (s & Hf & Hp).
+  intros Hb Hz. destruct (format_radix_roundtrip base z Hb Hz) as (s & Hf & Hp).
   exists s. unfold format_int, parse_int.
   replace ((2 <=? base) && (base <=? 36)) with true
     by (symmetry; apply andb_true_iff; split; apply Z.leb_le; lia).
   rewrite Hf. cbn [res_bind skipn]. rewrite Hp. split; reflexivity.
 Qed.
 
-(* format_radix never runs out of fuel, and panics only at i64::MIN *)
+(* format_radix never runs out of fuel and never panics *)
 Theorem format_radix_total radix z :
-  2 <= radix <= 36 -> in_i64 z = true -> z <> i64_min -> exists s, format_radix z radix = ROk s.
-Proof. intros A B C. destruct (format_radix_roundtrip radix z A B C) as (s & H & _). eauto. Qed.
+  2 <= radix <= 36 -> in_i64 z = true -> exists s, format_radix z radix = ROk s.
+Proof. intros A B. destruct (format_radix_roundtrip radix z A B) as (s & H & _). eauto. Qed.
 
 (* default base on both sides: format_int(z) prints base 10, parse_int(s) picks the base from the prefix *)
 Lemma decimal_first_char z s :
-  in_i64 z = true -> z <> i64_min -> format_radix z 10 = ROk s ->
+  in_i64 z = true -> format_radix z 10 = ROk s ->
   (z = 0 /\ s = [48%N]) \/ (z <> 0 /\ exists c tl, s = c :: tl /\ c <> 48%N).
 Proof.
-  intros Hz Hmin Hf. destruct (Z.eq_dec z 0) as [->|Hnz].
+  intros Hz Hf. destruct (Z.eq_dec z 0) as [->|Hnz].
   - left. split; auto. vm_compute in Hf. inversion Hf; reflexivity.
   - right. split; auto.
-    unfold in_i64, i64_min, i64_max in *.
-    apply andb_true_iff in Hz. destruct Hz as [Hlo Hhi]. apply Z.leb_le in Hlo. apply Z.leb_le in Hhi.
-    unfold format_radix in Hf. destruct (z <? 0) eqn:Neg.
-    + replace (z =? i64_min) with false in Hf by (symmetry; apply Z.eqb_neq; exact Hmin).
-      destruct (digits_loop 64 10 (- z) []); inversion Hf. exists 45%N. eexists. split; [reflexivity|discriminate].
-    + apply Z.ltb_ge in Neg.
-      (* the first digit of a positive number is not '0' *)
-      assert (G : forall fuel x acc r, 0 < x -> digits_loop fuel 10 x acc = Some r ->
-                  exists c tl, r = c :: tl /\ c <> 48%N).
-      { induction fuel as [|f IH]; intros x acc r Hx H; cbn [digits_loop] in H; [discriminate|].
-        destruct (x / 10 =? 0) eqn:E.
-        - apply Z.eqb_eq in E. inversion H; subst. eexists; eexists; split; [reflexivity|].
-          assert (x mod 10 = x) by (rewrite (Z.div_mod x 10) at 2 by lia; lia).
-          assert (0 <= x mod 10 < 10) by (apply Z.mod_pos_bound; lia).
-          unfold digit_char. replace (x mod 10 <? 10) with true by (symmetry; apply Z.ltb_lt; lia). lia.
-        - apply Z.eqb_neq in E. eapply IH; [|exact H].
-          assert (0 <= x / 10) by (apply Z.div_pos; lia). lia. }
-      destruct (digits_loop 64 10 z []) as [r|] eqn:D; inversion Hf; subst. eapply G; [|exact D]. lia.
+    (* the first digit of a positive number is not '0' *)
+    assert (G : forall fuel x acc r, 0 < x -> digits_loop fuel 10 x acc = Some r ->
+                exists c tl, r = c :: tl /\ c <> 48%N).
+    { induction fuel as [|f IH]; intros x acc r Hx H; cbn [digits_loop] in H; [discriminate|].
+      destruct (x / 10 =? 0) eqn:E.
+      - apply Z.eqb_eq in E. inversion H; subst. eexists; eexists; split; [reflexivity|].
+        assert (x mod 10 = x) by (rewrite (Z.div_mod x 10) at 2 by lia; lia).
+        assert (0 <= x mod 10 < 10) by (apply Z.mod_pos_bound; lia).
+        unfold digit_char. replace (x mod 10 <? 10) with true by (symmetry; apply Z.ltb_lt; lia). lia.
+      - apply Z.eqb_neq in E. eapply IH; [|exact H].
+        assert (0 <= x / 10) by (apply Z.div_pos; lia). lia. }
+    unfold format_radix in Hf. cbv zeta in Hf.
+    destruct (digits_loop 64 10 (Z.abs z) []) as [r|] eqn:D; [|discriminate].
+    destruct (z <? 0); inversion Hf; subst.
+    + exists 45%N. eexists. split; [reflexivity | discriminate].
+    + eapply G; [|exact D]. lia.
 Qed.
 
 Theorem int_roundtrip_default z :
-  in_i64 z = true -> z <> i64_min ->
+  in_i64 z = true ->
   exists s, format_int_opt (VInt z) None = ROk (VBytes s) /\ parse_int (VBytes s) None = ROk (VInt z).
 Proof.
-  intros Hz Hmin. destruct (format_radix_roundtrip 10 z ltac:(lia) Hz Hmin) as (s & Hf & Hp).
+  intros Hz. destruct (format_radix_roundtrip 10 z ltac:(lia) Hz) as (s & Hf & Hp).
   exists s. unfold format_int_opt, format_int. cbn [Z.leb andb]. change ((2 <=? 10) && (10 <=? 36)) with true. cbv iota.
   rewrite Hf. cbn [res_bind]. split; [reflexivity|].
-  destruct (decimal_first_char z s Hz Hmin Hf) as [[-> ->]|[Hnz (c & tl & -> & Hc)]].
+  destruct (decimal_first_char z s Hz Hf) as [[-> ->]|[Hnz (c & tl & -> & Hc)]].
   - vm_compute. reflexivity.
   - unfold parse_int.
     assert (E : match c :: tl with
@@ -238,14 +236,11 @@ Proof.
     rewrite E. cbn [res_bind skipn]. rewrite Hp. reflexivity.
 Qed.
 
-(* the finding: at i64::MIN the negation overflows *)
-Theorem format_int_min_panics base : 2 <= base <= 36 -> format_int (VInt i64_min) (VInt base) = RPanic.
-Proof.
-  intros Hb. unfold format_int.
-  replace ((2 <=? base) && (base <=? 36)) with true
-    by (symmetry; apply andb_true_iff; split; apply Z.leb_le; lia).
-  reflexivity.
-Qed.
+(* the former finding (12bd79c): the minimum integer is printed and read back like every other one *)
+Theorem format_int_min_roundtrips base : 2 <= base <= 36 ->
+  exists s, format_int (VInt i64_min) (VInt base) = ROk (VBytes s)
+            /\ parse_int (VBytes s) (Some (VInt base)) = ROk (VInt i64_min).
+Proof. intros Hb. apply int_roundtrip; [exact Hb | reflexivity]. Qed.
 
 (* ---------- further facts about the digit strings, used by the IP text proofs ---------- *)
 
